@@ -47,10 +47,19 @@ PlainCases(m) == IF m \in {"mcReq", "gaReq"}
 UnknownIntCases(m) == { Case(m, Opt(m), "unknown-int", ToString(k)) : k \in ({0, 10, 23, 24, 100, 255} \ KnownKeys(m)) }
 DupCases(m) == { Case(m, Opt(m), "dup", x) : x \in Members(m) }
 MissingCases(m) == { Case(m, {}, "missing", x) : x \in Req(m) }
+\* unknown text keys: a name, and texts that LOOK like member numbers ("1" is not the integer 1), the empty text
+UnknownTexts == {"someFutureMember", "1", "2", "3", "4", "06", "255", "-1", "", "0x01"}
+\* the options member present with a map that carries only some of rk / up / uv: the others take their defaults
+PartialOptions == {"empty", "uv", "rk", "rk,uv", "up=false", "up=false,uv", "rk=false", "uv=false,rk"}
 Cases ==
     UNION { PlainCases(m) \cup UnknownIntCases(m) \cup DupCases(m) \cup MissingCases(m)
-            \cup { Case(m, {}, "unknown-text", "someFutureMember") } : m \in Msgs }
+            \cup { Case(m, p, "unknown-text", t) : t \in UnknownTexts, p \in {{}, Opt(m)} } : m \in Msgs }
     \cup { Case(m, {}, "no-options", "options") : m \in {"mcReq", "gaReq"} }
+    \cup { Case(m, {}, "options-partial", a) : m \in {"mcReq", "gaReq"}, a \in PartialOptions }
+\* the values a partial options map gives (members left out take the defaults: up true, rk and uv false)
+PartialUp(a) == a \notin {"up=false", "up=false,uv"}
+PartialRk(a) == a \in {"rk", "rk,uv", "uv=false,rk"}
+PartialUv(a) == a \in {"uv", "rk,uv", "up=false,uv"}
 
 
 JudgeCase(e) ==
@@ -62,6 +71,9 @@ JudgeCase(e) ==
       [] e.variant \in {"unknown-int", "unknown-text"} -> e.de = "ok" /\ e.rt         \* ignored: same value as without it
       [] e.variant \in {"dup", "missing"} -> e.de = "err"
       [] e.variant = "no-options" -> e.de = "ok" /\ e.up /\ ~e.rk /\ ~e.uv
+      [] e.variant = "options-partial" ->
+           /\ e.de = "ok"
+           /\ e.up = PartialUp(e.arg) /\ e.rk = PartialRk(e.arg) /\ e.uv = PartialUv(e.arg)
 
 \* status bytes -----------------------------------------------------------
 KnownCtap2 == {0, 17, 18, 20, 21, 23, 24, 25} \cup (33..40) \cup (43..55) \cup (57..64)
